@@ -117,6 +117,8 @@ def gen(repo):
                 con = "TUnionHMO" if name == "SuitHeaderMapOptional" else "TUnion"
                 term = f"{con} [" + "; ".join(ref(c) for c in md.children) + "]"
             elif g == "SuitTupleNamed":
+                if any("*" in k for k in list(md.map.keys())[:-1]):
+                    raise Fail(f"{name}: a starred field that is not the last one")
                 term = "TTuple [" + "; ".join(f"({s(k)}, {ref(c)})" for k, c in md.map.items()) + "]"
             elif g in ("SuitKeyValue", "SuitKeyValueTuple"):
                 ents = []
@@ -136,7 +138,9 @@ def gen(repo):
             elif g in ("SuitList", "SuitListUint"):
                 ch = md.children if md is not None else None
                 grp = cls._group
-                elem = f"Some ({ref(ch[0])})" if ch else "None"
+                if not ch:
+                    raise Fail(f"{name}: list node without an element type")
+                elem = f"Some ({ref(ch[0])})"
                 if ch and len(ch) != 1:
                     raise Fail(f"{name}: list with {len(ch)} children")
                 term = f"TList ({elem}) ({'None' if grp is None else 'Some ' + z(grp)})"
